@@ -230,7 +230,8 @@ Print Assumptions C20_history_spec.
    (no plugin of that name | a working one and (overwrite or strictly higher) | a broken one and overwrite) *)
 Theorem C20_verdict_iff : forall tbl T src ow,
   verdict tbl T src ow <> None <->
-  exists n v, candidate tbl src = Some (n, v) /    (existing tbl T n = None
+  exists n v, candidate tbl src = Some (n, v) /\
+    (existing tbl T n = None
      \/ (exists en ev, existing tbl T n = Some (AOk en ev) /\ (ow = true \/ higher v ev))
      \/ (exists a, existing tbl T n = Some a /\ (forall en ev, a <> AOk en ev) /\ ow = true)).
 Proof. exact verdict_iff. Qed.
@@ -343,6 +344,163 @@ Theorem C20_metadata_refused : forall rt st src ow e n st' r,
                   end).
 Proof. exact metadata_refused. Qed.
 Print Assumptions C20_metadata_refused.
+
+(* ---------- the reasons of a refusal are the ones the property lists ---------- *)
+Theorem C20_refusal_reasons : forall tbl st src ow st' r e,
+  source_ok src = true -> install tbl st src ow = (st', r) -> r_err r = Some e ->
+  candidate tbl src = None \/
+  (ow = false /\ exists n v a, candidate tbl src = Some (n, v) /\ existing tbl st n = Some a /\
+     match a with
+     | AOk en ev => ~ higher v ev /\ is_version_err e = true
+     | _ => True
+     end).
+Proof. exact refusal_reasons. Qed.
+Print Assumptions C20_refusal_reasons.
+
+(* ====================================================================== *)
+(* Non-vacuity: the hypotheses of the theorems above are met by concrete,  *)
+(* non-trivial roots, sources and histories                                *)
+(* ====================================================================== *)
+Definition ex_tbl : table :=
+  [(1%N, MOk "foo" "1.0.0"); (2%N, MOk "foo" "1.1.0"); (3%N, MOk "foo" "1.0.0+b"); (4%N, MOk "foo" "0.9.0");
+   (5%N, MOk "foo" "1.1"); (6%N, MMalformed); (7%N, MFail); (8%N, MOk "bar" "1.0.0")].
+Definition ex_st : state := [("bar", [F "notation-bar" 493 8]); ("foo", [F "notation-foo" 493 1; F "old.so" 420 7])].
+Definition ex_broken : state := [("foo", [F "notation-foo" 493 6])].
+Definition ex_src (c : N) : source := SFile (F "notation-foo" 493 c).
+Definition ex_dir (mode c : N) : source :=
+  SDir "pkg" [EF (F "LICENSE" 420 7); ED "docs" [F "notation-sub" 493 8]; EF (F "notation-foo" mode c); EF (F "zz.txt" 438 7)].
+
+(* C20_replace_rule / C20_invalid_version_refused: a working plugin 1.0.0 meets a higher, an equal
+   (build metadata only), a lower and an invalid version; and overwrite *)
+Example C20_replace_rule_witness :
+  existing ex_tbl ex_st "foo" = Some (AOk "foo" "1.0.0") /\
+  (source_ok (ex_src 2) = true /\ candidate ex_tbl (ex_src 2) = Some ("foo", "1.1.0") /\
+   higher "1.1.0" "1.0.0" /\ r_err (snd (install ex_tbl ex_st (ex_src 2) false)) = None) /\
+  (candidate ex_tbl (ex_src 3) = Some ("foo", "1.0.0+b") /\
+   r_err (snd (install ex_tbl ex_st (ex_src 3) false)) = Some EEqual) /\
+  (candidate ex_tbl (ex_src 4) = Some ("foo", "0.9.0") /\
+   r_err (snd (install ex_tbl ex_st (ex_src 4) false)) = Some EDowngrade) /\
+  (candidate ex_tbl (ex_src 5) = Some ("foo", "1.1") /\ sv_valid "1.1" = false /\
+   install ex_tbl ex_st (ex_src 5) false = (ex_st, mk_ires None None (Some EVersion))) /\
+  r_err (snd (install ex_tbl ex_st (ex_src 4) true)) = None.
+Proof.
+  split; [vm_compute; reflexivity|]. split.
+  { split; [vm_compute; reflexivity|]. split; [vm_compute; reflexivity|]. split; [|vm_compute; reflexivity].
+    apply c20_sv_higher_iff. vm_compute. reflexivity. }
+  vm_compute. repeat split; reflexivity.
+Qed.
+
+(* C20_replace_broken: the installed plugin answers malformed metadata *)
+Example C20_replace_broken_witness :
+  candidate ex_tbl (ex_src 1) = Some ("foo", "1.0.0") /\ existing ex_tbl ex_broken "foo" = Some AInvalid /\
+  r_err (snd (install ex_tbl ex_broken (ex_src 1) false)) = Some EExistMeta /\
+  r_err (snd (install ex_tbl ex_broken (ex_src 1) true)) = None.
+Proof. vm_compute. repeat split; reflexivity. Qed.
+
+(* C20_install_fresh / C20_installed / C20_installed_get / C20_installed_files: a directory source with a
+   non-executable candidate, extra files before and after it and a sub-directory, on a root holding another plugin *)
+Example C20_installed_witness :
+  let st := [("bar", [F "notation-bar" 493 8])] in
+  source_ok (ex_dir 420 2) = true /\ candidate ex_tbl (ex_dir 420 2) = Some ("foo", "1.1.0") /\
+  existing ex_tbl st "foo" = None /\
+  install ex_tbl st (ex_dir 420 2) false
+    = ([("bar", [F "notation-bar" 493 8]);
+        ("foo", [F "LICENSE" 420 7; F "notation-foo" 484 2; F "zz.txt" 420 7])],
+       mk_ires None (Some ("foo", "1.1.0")) None).
+Proof. vm_compute. repeat split; reflexivity. Qed.
+
+(* C20_refused_unusable / C20_metadata_refused / C20_refusal_reasons: unusable sources and metadata *)
+Example C20_refused_unusable_witness :
+  forallb (fun src => source_ok src && is_none (candidate ex_tbl src)
+                      && state_eqb (fst (install ex_tbl ex_st src true)) ex_st
+                      && negb (is_none (r_err (snd (install ex_tbl ex_st src true)))))
+    [SNone; SMissing; SSpecial "notation-foo"; SFile (F "notation-foo" 420 1); SFile (F "foo" 493 1);
+     SFile (F "notation-.." 493 1); ex_src 6; ex_src 7; ex_src 8;
+     SDir "pkg" [EF (F "notation-bar" 493 8); EF (F "notation-foo" 493 1)];
+     SDir "pkg" [EF (F "notation-bar" 420 8); EF (F "notation-foo" 420 1)];
+     SDir "pkg" [EF (F "LICENSE" 420 7); ED "bin" [F "notation-foo" 493 1]]] = true.
+Proof. vm_compute. reflexivity. Qed.
+
+Example C20_metadata_refused_witness :
+  let rt := [(1%N, RJson (RM "foo" "d" "" "u" ["1.0"] ["c"]));        (* empty version *)
+             (2%N, RJson (RM "foo" "d" "1.0.0" "u" ["2.0"] ["c"]));   (* contract version 1.0 not supported *)
+             (3%N, RJson (RM "bar" "d" "1.0.0" "u" ["1.0"] ["c"]));   (* valid, but another name *)
+             (4%N, RNotJson)] in
+  map (fun c => r_err (snd (install (tbl_of rt) ex_st (ex_src c) true))) [1%N; 2%N; 3%N; 4%N; 5%N]
+    = [Some EMetaInvalid; Some EMetaInvalid; Some EMisnamed; Some EMetaInvalid; Some EMetaInvalid] /\
+  validate (RM "foo" "d" "1.0.0" "u" ["0.9"; "1.0"] ["c"]) = true.
+Proof. vm_compute. split; reflexivity. Qed.
+
+(* C20_history_refused_frame / C20_history_step_frame / C20_history_spec: a history on ex_st whose operations
+   are all refused (downgrade, equal, invalid version, unknown plugin, invalid name, empty path), and a
+   mixed one whose refused third step leaves what the first two built *)
+Example C20_history_witness :
+  let refused_ops := [OInstall (ex_src 4) false; OInstall (ex_src 3) false; OInstall (ex_src 5) false;
+                      OUninstall "baz"; OUninstall ".."; OInstall SNone true] in
+  let ops := [OUninstall "foo"; OInstall (ex_dir 493 2) false; OInstall (ex_src 1) false; OInstall (ex_src 1) true] in
+  all_refused ex_tbl ex_st refused_ops /\ forallb op_ok refused_ops = true /\
+  forallb op_ok ops = true /\
+  step_refused (snd (mstep ex_tbl (final_state ex_tbl ex_st (firstn 2 ops)) (OInstall (ex_src 1) false))) /\
+  final_state ex_tbl ex_st (firstn 3 ops)
+    = [("bar", [F "notation-bar" 493 8]); ("foo", [F "LICENSE" 420 7; F "notation-foo" 493 2; F "zz.txt" 420 7])] /\
+  spec_final ex_tbl ex_st ops = [("bar", [F "notation-bar" 493 8]); ("foo", [F "notation-foo" 493 1])].
+Proof.
+  split; [|vm_compute; repeat split; try reflexivity; discriminate].
+  vm_compute. repeat split; discriminate.
+Qed.
+
+(* C20_source_independent*: the executable alone, and two directories holding it with other files,
+   give the same plugin and the same installed executable *)
+Example C20_source_independent_witness :
+  let es := [EF (F "LICENSE" 420 7); ED "docs" [F "notation-sub" 493 8]; EF (F "notation-aaa" 420 8);
+             EF (F "notation-foo" 493 2); EF (F "zz.txt" 438 7)] in
+  let f := F "notation-foo" 493 2 in
+  (source_ok (SDir "pkg" es) = true /\ In f (top_files es) /\ is_cand f = true /\ is_exec f = true /\
+   (forall g, In g (top_files es) -> is_cand g = true -> is_exec g = true -> g = f)) /\
+  spec_exe (SDir "pkg" es) = Some f /\ spec_exe (SFile f) = Some f /\
+  r_err (snd (install ex_tbl ex_st (SDir "pkg" es) false)) = None /\
+  (let c := F "notation-foo" 420 2 in
+   let es' := [EF (F "LICENSE" 420 7); EF c; EF (F "zz.txt" 438 7)] in
+   source_ok (SDir "pkg" es') = true /\ cands (top_files es') = [c] /\ is_exec c = false /\
+   spec_exe (SDir "pkg" es') = Some (set_exec c) /\
+   r_err (snd (install ex_tbl ex_st (SDir "pkg" es') false)) = None).
+Proof.
+  cbv zeta. split.
+  { split; [vm_compute; reflexivity|]. split; [vm_compute; tauto|]. split; [vm_compute; reflexivity|].
+    split; [vm_compute; reflexivity|].
+    intros g Hin Hc Hx. cbn [top_files In] in Hin.
+    destruct Hin as [<-|[<-|[<-|[<-|[]]]]]; try reflexivity; vm_compute in Hc, Hx; discriminate. }
+  vm_compute. repeat split; reflexivity.
+Qed.
+
+(* C20_candidates / C20_candidates_refused: every clause has inputs *)
+Example C20_candidates_witness :
+  (exists e1 e2 r, execs (top_files [EF (F "notation-bar" 493 8); EF (F "notation-foo" 493 1)]) = e1 :: e2 :: r) /\
+  (execs (top_files [EF (F "notation-bar" 420 8); EF (F "notation-foo" 420 1)]) = [] /\
+   List.length (cands (top_files [EF (F "notation-bar" 420 8); EF (F "notation-foo" 420 1)])) <> 1%nat) /\
+  (execs (top_files [EF (F "LICENSE" 493 7); EF (F "notation-." 493 1)]) = [] /\
+   List.length (cands (top_files [EF (F "LICENSE" 493 7); EF (F "notation-." 493 1)])) <> 1%nat) /\
+  (exists e, execs (top_files [EF (F "notation-bar" 420 8); EF (F "notation-foo" 493 1)]) = [e]) /\
+  (exists c, execs (top_files [EF (F "notation-foo" 420 1); EF (F "zz" 493 7)]) = [] /\
+             cands (top_files [EF (F "notation-foo" 420 1); EF (F "zz" 493 7)]) = [c]).
+Proof.
+  split; [do 3 eexists; vm_compute; reflexivity|].
+  split; [split; [vm_compute; reflexivity|vm_compute; discriminate]|].
+  split; [split; [vm_compute; reflexivity|vm_compute; discriminate]|].
+  split; eexists; vm_compute; [reflexivity|split; reflexivity].
+Qed.
+
+(* C20_semver_*: valid versions (with pre-release and build metadata), equal up to build metadata *)
+Example C20_semver_witness :
+  Forall (fun s => sv_valid s = true)
+    ["0.0.0"; "1.0.0-alpha"; "1.0.0-alpha.1"; "1.0.0-0.3.7"; "1.0.0-x.7.z.92"; "1.0.0-x-y-z.--"; "1.0.0+20130313144700";
+     "1.0.0-beta+exp.sha.5114f85"; "1.0.0+21AF26D3----117B344092BD"; "10.20.30"; "1.0.0-rc.1+build.1"] /\
+  before 43%N (bytes "1.0.0-rc.1+build.1") = before 43%N (bytes "1.0.0-rc.1+exp.sha.5114f85") /\
+  compare_plugin_version "1.0.0-beta.11" "1.0.0-beta.2" = Some Gt /\
+  compare_plugin_version "1.0.0-rc.1" "1.0.0" = Some Lt /\
+  compare_plugin_version "1.0.0+a" "1.0.0+b" = Some Eq /\
+  compare_plugin_version "1.0" "1.0.0" = None.
+Proof. split; [apply Forall_forall; apply forallb_forall; vm_compute; reflexivity|vm_compute; repeat split; reflexivity]. Qed.
 
 (* ---------- the code before the fix commits did not have the property ---------- *)
 (* 3438892 (F7): the candidate name was erased by a later non-matching file *)
